@@ -515,7 +515,9 @@ func main() {
 			}
 			if pro != "" {
 				c.insert(c.off(fd.Body.Lbrace)+1, pro+" ")
-				c.useZsim = true
+				if strings.Contains(pro, "zsim.") {
+					c.useZsim = true
+				}
 			}
 		}
 	}
